@@ -109,6 +109,8 @@ def main() -> int:
             items.append((p, 'plain', None))
     for p in ps['fixed'] + ps['sampled'][: (40 if tier == 'quick' else 400)]:
         items.append((p, 'wide', None))
+    for p in ps['fixed']:
+        items.append((p, 'tight', None))
     results = run_items(work, items, soft_items=ps['sampled'])
     from gram import Bin, Eq, Num, Var
     twins = [((Eq(Var('Y'), Bin('+', Var('X', off=-1), Var('Z'))),), 'plain', 'lag_off'),
